@@ -423,6 +423,11 @@ class InverseMatcher(WrappingMatcher):
 
             break
 
+        # The loop above stops when the child runs out; the document we are
+        # left on may still be a missing (deleted) one
+        while self._id < self.limit and missing(self._id):
+            self._id += 1
+
     def id(self):
         return self._id
 
